@@ -44,7 +44,7 @@ func init() {
 		if im.NewLexer != nil {
 			lr, _ = ref.NewLexRef(it.G.Lex, strLits(it))
 			if lr != nil {
-				alpha = lexAlphabet(lr, 6)
+				alpha = lexAlphabet(lr, 9)
 			}
 		}
 		for _, sb := range sibs {
@@ -55,6 +55,16 @@ func init() {
 			}
 			variant := fmt.Sprint(sb.Extra["variant"])
 			st.add("variants", 1)
+			// one token numbering whatever the flags: every number and every terminal name must map identically
+			for i := 0; i <= len(it.Tok.TypeMap); i++ {
+				st.add("token_lookups", 2)
+				id := im.TokId(i)
+				if sim.TokId(i) != id || sim.TokType(id) != im.TokType(id) {
+					st.violation("C12", it.ID+" "+variant+" tokmap", fmt.Sprintf("flags %v: token number %d is %q (Type(%q)=%d) in the plain build but %q (Type=%d) here", sb.Flags, i, id, id, im.TokType(id), sim.TokId(i), sim.TokType(id)),
+						map[string]any{"variant": variant, "number": i})
+					break
+				}
+			}
 			// tables as the compiled programs see them
 			if im.Tables != nil && sim.Tables != nil {
 				a, b := im.Tables(), sim.Tables()
@@ -99,7 +109,7 @@ func init() {
 					}
 					return true
 				}
-				rec(nil, 4)
+				rec(nil, 3)
 			}
 		}
 		st.sample(map[string]any{"grammar": it.Text, "variants": len(sibs)})
